@@ -147,7 +147,7 @@ def ed_to_x(ctx, n):
         ctx.add('x.dh', sb.hex(), to32(9).hex(), expect=[mont], cls='ed2x')
 
 
-def task(prop, seed, size, cfgbins, iters=0):
+def make(seed, size, iters=0):
     ctx = core.Ctx(seed, prefix='x%d_' % (seed % 100000))
     if iters:
         iterated(ctx, iters)
@@ -157,6 +157,11 @@ def task(prop, seed, size, cfgbins, iters=0):
         conversions(ctx, 20 + size // 4)
         equality(ctx, max(6, size // 6))
         ed_to_x(ctx, max(3, size // 10))
+    return ctx
+
+
+def task(prop, seed, size, cfgbins, iters=0):
+    ctx = make(seed, size, iters=iters)
     return core.run_and_judge(prop, ctx, cfgbins)
 
 
